@@ -274,7 +274,7 @@ def run(ctx: lib.Ctx) -> None:
     from pytezos.protocol.protocol import Protocol, files_to_proto, proto_to_files
     rng = ctx.rng
     ctx.rule = ('pairs (a, b) of texts over a 34-word line alphabet incl. lines starting with @ - + \\ space, empty lines, empty texts, '
-                'missing final newline on either side; b = edits of a / independent / equal; context 0..5 (each pair with 2 context sizes); '
+                'missing final newline on either side; b = edits of a / independent / equal; context 0..5 (each generated pair with 2 context sizes, 31 fixed boundary pairs with 4 (thorough: all 6)); '
                 'hand-built edit scripts (adjacent and empty hunks, arbitrary tag order); malformed = mutated patch text. '
                 'non-trivial = the patch has at least one hunk and the texts differ; distinct = distinct (source, patch, direction)')
     reported = 0
@@ -314,10 +314,17 @@ def run(ctx: lib.Ctx) -> None:
              ('\n', ''), ('\n\n', '\n'), ('a\n\n', 'a\n'), ('@\n', '@@\n'), ('\\ No newline at end of file\n', '\\ No newline at end of file'),
              ('x\ny', 'x\nz\n'), ('x\ny', 'x\nz'), ('y', 'z'), ('y', 'z\n'), ('y\n', 'z'), ('p\nq\ny', 'p\nQ\nz'),
              ('a\nb\n', 'a\nX\nb\n'), ('a\nX\nb\n', 'a\nb\n'), ('a\nb\n', 'X\na\nb\n'), ('a\nb\n', 'a\nb\nX\n'), ('a\nb', 'a\nb\nX'), ('X\n', ''),
+             (''.join(f'l{i}\n' for i in range(130)), ''.join(f'l{i}\n' for i in range(130) if i not in (9, 99, 100)) .replace('l120\n', 'L\nM\n') + 'end'),
              ('--- f\n', '+++ f\n'), ('-- f\n+\n', '-\n++ f\n'), ('x\n' * 12, 'x\n' * 5 + 'y\n' + 'x\n' * 7), ('a\nb\nc\nd\ne\nf\ng\nh\ni\nj\nk\nl\n', 'a\nB\nc\nd\ne\nf\ng\nh\ni\nj\nK\nl')]
     for k in range(npairs):
         a, b = fixed[k] if k < len(fixed) else gen_pair(rng)
-        for cs in (list(range(6)) if k < len(fixed) else rng.sample(range(6), 2)):
+        if k >= len(fixed):
+            css = rng.sample(range(6), 2)
+        elif len(a) > 400:
+            css = [0, 2]
+        else:
+            css = list(range(6)) if ctx.thorough else [0, 1, 3, rng.choice([2, 4, 5])]
+        for cs in css:
             fname = rng.choice(['f', 'x.ml', 'dir/a b.mli', ''])
             ok, patch = lib.call(make_patch, a, b, fname, cs)
             if not ok or not isinstance(patch, str):
@@ -436,7 +443,7 @@ def run(ctx: lib.Ctx) -> None:
             allcases.append((3 * sum(len(t) for _, t in dfiles + list(yours)) + 60,
                              (f'(DProto {fl(list(yours))} {fl(dfiles)} {out})', 'proto', (yf, tf, cs, res))))
     # ---- (A): the model evaluates every collected case inside coqc
-    shard = ctx.n(170, 400)
+    shard = ctx.n(220, 400)
     ordered = balanced(allcases, shard)
     bad = ctx.coq_mismatches('cases', IMPORTS, 'dcheck', 'Bool.eqb', 'dcase', 'bool', [(lit, 'true') for lit, _, _ in ordered], shard=shard)
     ctx.extra['coq_cases'] = {k: sum(1 for _, s_, _ in ordered if s_ == k) for k in ('apply', 'script', 'proto')}
@@ -459,3 +466,31 @@ def run(ctx: lib.Ctx) -> None:
         yf, tf, cs, res = bad_by['proto'][0]
         report('implementation no longer corresponds to the model the theorems are about',
                {'correspondence': 'C30/Protocol.patch vs Codec.Diff.patch_files', 'yours': yf, 'theirs': tf, 'context_size': cs, 'got': res}, found=False)
+
+
+def replay(ctx, doc) -> bool:
+    """re-evaluate the property's oracle (B) on the input stored in a replay file; True = it still fails"""
+    from pytezos.protocol.diff import make_patch
+    from pytezos.protocol.protocol import Protocol, files_to_proto, proto_to_files
+    if 'a' in doc and 'b' in doc and 'context_size' in doc and doc.get('origin') is None:
+        a, b, cs = doc['a'], doc['b'], doc['context_size']
+        ok, patch = lib.call(make_patch, a, b, 'f', cs)
+        fwd = run_apply(a, patch, False) if ok else None
+        back = run_apply(b, patch, True) if ok else None
+        print(f'replay: patch={patch!r} applied={fwd!r} reverted={back!r}')
+        return fwd != b or back != a
+    if 'yours' in doc and 'theirs' in doc:
+        yf = [tuple(x) for x in doc['yours']]
+        tf = [tuple(x) for x in doc['theirs']]
+        yours = Protocol(files_to_proto(yf))
+        tp = files_to_proto(tf)
+        ok, d = lib.call(yours.diff, lambda: tp, doc.get('context_size', 3))
+        res = None
+        if ok:
+            dp = d._proto
+            ok2, r = lib.call(yours.patch, lambda: dp)
+            res = list(r) if ok2 else None
+        print(f'replay: got={res!r} want={proto_to_files(tp)!r}')
+        return res != proto_to_files(tp)
+    print('replay: no failing input of the property in this file (correspondence / proof break)')
+    return False
